@@ -42,31 +42,18 @@ def copyFrameIntoBlock (src dst : Graph) (destBlockPath : Path) (obj : Nat) (nam
       (CopyShape.callerBy CopyShape.Gen.h5GroupCopy CopyShape.Gen.blockCreateDataFrame src dst b.key obj name
         true keepId).map (·.1)
 
-/-! ## `SourceLinkContainer.append` after an id-keeping block copy
+/-! ## `SourceLinkContainer.append` after an id-keeping copy
 
-`Store/Api.contAppend` decides "is this source part of the block's source tree?" by id
-(`inSourceTree`), which coincides with the code on the copy-free histories of the other properties.
-The code (fix a440b8d) asks for the very object: `find_sources(filtr = same id **and** same HDF5
-object)`. After an id-keeping block copy the two differ — a source *object* of the other block
-carries an id that also occurs in this block. `contAppend20` adds that test; when it accepts, it is
-`contAppend` (`Props/C20.contAppend20_refines`), so every theorem about appended links carries over. -/
+The code (fix a440b8d) asks for the very object: `find_sources(filtr = same id **and** same HDF5 object)`. After an
+id-keeping copy a source *object* of the other block — or the detached duplicate that an id-keeping array copy
+links — carries an id that also occurs in this block's source tree. `Store/Api.contAppend` makes that test itself
+(`inSourceTreeObj`) since the histories of C04 contain id-keeping copies too; `contAppend20` is kept as the name the
+C20 / C04 drivers and `Props/C20.contAppend20_refines` use. -/
 
--- `bfsKeys` / `subtreeKeys` (keys of a section / source subtree, breadth first) live in `Store/Api.lean`
--- since deletion is by object.
-
-/-- is the source *object* `k` somewhere in the source tree of block `b`? -/
-def inSourceTreeObj (g : Graph) (b : Nat) (k : Nat) : Bool :=
-  match g.child? b "sources" with
-  | some c => ((g.links c).map (·.2)).any fun top => (subtreeKeys g "sources" top).contains k
-  | none => false
+-- `bfsKeys` / `subtreeKeys` (keys of a section / source subtree, breadth first) and `inSourceTreeObj` live in
+-- `Store/Api.lean`.
 
 /-- `LinkContainer.append` / `SourceLinkContainer.append` with the object test of the source link lists -/
-def contAppend20 (g : Graph) (c : Cont) (key : Key) : Except Err Graph :=
-  match c.info.flavour, c.block, key with
-  | .sourceLink, some b, .ent k =>
-    match g.entityId k with
-    | some id => if inSourceTree g b id && !inSourceTreeObj g b k then .error .runtimeError else contAppend g c key
-    | none => contAppend g c key
-  | _, _, _ => contAppend g c key
+def contAppend20 (g : Graph) (c : Cont) (key : Key) : Except Err Graph := contAppend g c key
 
 end Nix.Store
